@@ -11,7 +11,9 @@
 #ifndef CAP
 #define CAP 32
 #endif
+#ifndef KMAX
 #define KMAX 4
+#endif
 #define PDU_MAXA CAP
 #define PDU_FIXED_BLOCK (CAP + 6)
 #define ALLOC_CAP (CAP + 6)
